@@ -532,6 +532,9 @@ pub struct Seeker<H: HashAlgorithm> {
     /// FIFO, pushed onto back.
     idle_page_loads: VecDeque<usize>,
     record_siblings: bool,
+    /// verification hook: overrides `MAX_INFLIGHT`
+    #[cfg(nomt_verif)]
+    verif_max_inflight: Option<usize>,
     _marker: std::marker::PhantomData<H>,
 }
 
@@ -560,6 +563,8 @@ impl<H: HashAlgorithm> Seeker<H> {
             idle_requests: VecDeque::new(),
             idle_page_loads: VecDeque::new(),
             record_siblings,
+            #[cfg(nomt_verif)]
+            verif_max_inflight: None,
             _marker: std::marker::PhantomData,
         }
     }
@@ -569,6 +574,10 @@ impl<H: HashAlgorithm> Seeker<H> {
     }
 
     pub fn has_room(&self) -> bool {
+        #[cfg(nomt_verif)]
+        if let Some(max_inflight) = self.verif_max_inflight {
+            return self.io_waiters.len() < max_inflight;
+        }
         self.io_waiters.len() < MAX_INFLIGHT
     }
 
@@ -1325,6 +1334,345 @@ pub mod verif {
             self.page_set
                 .get(page_id)
                 .map(|(page, _)| page.page_data()[..].to_vec())
+        }
+    }
+
+    // ------------------------------------------------------------------------------------------
+    // The REAL `Seeker` (request multiplexing, I/O slab, waiter lists, idle queues, back-pressure)
+    // over a scripted I/O back-end: every page / leaf read it submits is parked, the caller
+    // chooses when and in which order each one completes.
+
+    use crate::bitbox::verif_table::TableSim;
+    use crate::io::verif_scripted::ScriptedIo;
+    use std::collections::HashMap as StdHashMap;
+
+    /// What a parked read is for.
+    #[derive(Clone, Debug, PartialEq, Eq)]
+    pub enum InFlight {
+        /// a bucket of the hash table
+        Bucket(u64),
+        /// index of the leaf in the flattened list of leaves
+        Leaf(usize),
+    }
+
+    #[derive(Clone, Debug, PartialEq, Eq)]
+    pub enum SlabView {
+        Merkle {
+            page_id: PageId,
+            /// the bucket the probe sequence stands at
+            bucket: u64,
+            submitted: bool,
+        },
+        Leaf(usize),
+    }
+
+    /// The result of a seek as `take_completion` hands it out.
+    #[derive(Clone, Debug)]
+    pub struct SeekOut {
+        pub key: KeyPath,
+        pub depth: usize,
+        pub raw_path: KeyPath,
+        pub page_id: Option<PageId>,
+        pub siblings: Vec<Node>,
+        pub terminal: Option<(KeyPath, ValueHash)>,
+        pub ios: usize,
+    }
+
+    pub struct SeekerView {
+        pub processed: usize,
+        /// the live requests front to back; `awaiting` = the waiter list the request is on
+        pub requests: Vec<RequestView>,
+        /// `io_waiters`, pages first (ascending), then leaves (ascending)
+        pub waiters: Vec<(Awaiting, Vec<usize>)>,
+        /// the occupied entries of the I/O slab, ascending by index
+        pub slab: Vec<(usize, SlabView)>,
+        pub vacant_key: usize,
+        pub idle_requests: Vec<usize>,
+        pub idle_page_loads: Vec<usize>,
+        /// the parked reads in submission order: `(user_data, what)`
+        pub in_flight: Vec<(u64, InFlight)>,
+    }
+
+    pub struct SeekerSim {
+        seeker: Seeker<H>,
+        page_set: PageSet,
+        page_pool: PagePool,
+        io: ScriptedIo,
+        table: TableSim,
+        buckets: StdHashMap<u64, Vec<u8>>,
+        leaves: Vec<Arc<LeafNode>>,
+        _read_tx: BeatreeReadTx,
+    }
+
+    impl SeekerSim {
+        /// `table`: the hash table (built before this call: the loader locks its meta map),
+        /// `buckets`: the content of its full buckets, `cache`: pages put into the page cache,
+        /// `cached_leaves`: leaves put into the leaf cache, `max_inflight`: overrides
+        /// `MAX_INFLIGHT`.
+        #[allow(clippy::too_many_arguments)]
+        pub(crate) fn new(
+            root: Node,
+            overlay: LiveOverlay,
+            primary: Vec<(KeyPath, Option<Val>)>,
+            secondary: Option<Vec<(KeyPath, Option<Val>)>>,
+            branches: Vec<Vec<LeafSpec>>,
+            record_siblings: bool,
+            table: TableSim,
+            buckets: Vec<(u64, Vec<u8>)>,
+            cache: Vec<(PageId, Vec<u8>)>,
+            cached_leaves: Vec<usize>,
+            max_inflight: Option<usize>,
+        ) -> std::io::Result<Self> {
+            let page_pool = PagePool::new();
+            let (index, leaves) = build_tree(&page_pool, branches);
+            let read_tx = BeatreeReadTx::verif_in_memory(
+                index,
+                staging(primary),
+                secondary.map(staging),
+                page_pool.clone(),
+            )?;
+            for l in cached_leaves {
+                read_tx.verif_cache_leaf(PageNumber(PN_BASE + l as u32), leaves[l].clone());
+            }
+            let page_cache = PageCache::new(None, &crate::Options::new(), None);
+            let mut next_bucket = 1u64 << 40;
+            for (page_id, bytes) in cache {
+                assert_eq!(bytes.len(), PAGE_SIZE);
+                let mut fat = page_pool.alloc_fat_page();
+                fat[..].copy_from_slice(&bytes);
+                next_bucket += 1;
+                let _ = page_cache.insert(
+                    page_id,
+                    PageMut::pristine_with_data(fat).freeze(),
+                    BucketIndex::verif_new(next_bucket),
+                );
+            }
+            let (io, io_handle) = ScriptedIo::new();
+            let page_loader = PageLoader::verif_new(table.loader());
+            let mut seeker = Seeker::<H>::new(
+                root,
+                read_tx.clone(),
+                page_cache,
+                overlay,
+                io_handle,
+                page_loader,
+                record_siblings,
+            );
+            seeker.verif_max_inflight = max_inflight;
+            Ok(SeekerSim {
+                seeker,
+                page_set: PageSet::new(page_pool.clone(), None),
+                page_pool,
+                io,
+                table,
+                buckets: buckets.into_iter().collect(),
+                leaves,
+                _read_tx: read_tx,
+            })
+        }
+
+        pub fn is_empty(&self) -> bool {
+            self.seeker.is_empty()
+        }
+        pub fn has_room(&self) -> bool {
+            self.seeker.has_room()
+        }
+        pub fn first_key(&self) -> Option<KeyPath> {
+            self.seeker.first_key().cloned()
+        }
+        pub fn has_live_requests(&self) -> bool {
+            self.seeker.has_live_requests()
+        }
+        pub fn push(&mut self, key: KeyPath) {
+            self.seeker.push(key)
+        }
+        pub fn submit_all(&mut self) {
+            self.seeker.submit_all(&mut self.page_set)
+        }
+        pub fn take_completion(&mut self) -> Option<SeekOut> {
+            self.seeker.take_completion().map(|s| SeekOut {
+                key: s.key,
+                depth: s.position.depth() as usize,
+                raw_path: s.position.raw_path(),
+                page_id: s.page_id,
+                siblings: s.siblings,
+                terminal: s.terminal.map(|l| (l.key_path, l.value_hash)),
+                ios: s.ios,
+            })
+        }
+
+        fn what(&self, user_data: u64, fd: i32, pn: u64) -> InFlight {
+            let _ = user_data;
+            if fd == self.table.ht_fd() {
+                InFlight::Bucket(self.table.bucket_of_page_number(pn))
+            } else {
+                InFlight::Leaf((pn as u32 - PN_BASE) as usize)
+            }
+        }
+
+        /// The parked reads in submission order.
+        pub fn in_flight(&mut self) -> Vec<(u64, InFlight)> {
+            self.io
+                .pending()
+                .into_iter()
+                .map(|(ud, fd, pn, _)| (ud, self.what(ud, fd, pn)))
+                .collect()
+        }
+
+        /// Complete the parked read with this user data (the page is the bucket's content resp.
+        /// the leaf; an empty bucket reads as zeroes); with `fail` the completion carries an I/O
+        /// error. The completion is queued on the seeker's handle: `try_recv_page` / `recv_page`
+        /// process it. `false`: no such read.
+        pub fn complete(&mut self, user_data: u64, fail: bool) -> bool {
+            let pending = self.io.pending();
+            let Some(j) = pending.iter().position(|p| p.0 == user_data) else {
+                return false;
+            };
+            let (ud, fd, pn, _) = pending[j];
+            let bytes: Vec<u8> = match self.what(ud, fd, pn) {
+                InFlight::Bucket(b) => self
+                    .buckets
+                    .get(&b)
+                    .cloned()
+                    .unwrap_or_else(|| vec![0u8; PAGE_SIZE]),
+                InFlight::Leaf(l) => self.leaves[l].inner[..].to_vec(),
+            };
+            let result = if fail {
+                Err(std::io::Error::new(std::io::ErrorKind::Other, "scripted I/O error"))
+            } else {
+                Ok(())
+            };
+            self.io.complete(j, Some(&bytes), result)
+        }
+
+        pub fn try_recv_page(&mut self) -> std::io::Result<()> {
+            self.seeker.try_recv_page(&mut self.page_set)
+        }
+
+        /// `recv_page`; must only be called when a completion is queued (it blocks otherwise).
+        pub fn recv_page(&mut self) -> std::io::Result<()> {
+            self.seeker.recv_page(&mut self.page_set)
+        }
+
+        pub fn restart_page_set(&mut self, freeze: bool) {
+            let fresh = PageSet::new(self.page_pool.clone(), None);
+            let old = std::mem::replace(&mut self.page_set, fresh);
+            if freeze {
+                self.page_set = PageSet::new(self.page_pool.clone(), Some(old.freeze()));
+            }
+        }
+
+        pub fn view(&mut self) -> SeekerView {
+            let in_flight = self.in_flight();
+            let s = &self.seeker;
+            let mut waiters: Vec<(Awaiting, Vec<usize>)> = s
+                .io_waiters
+                .iter()
+                .map(|(q, w)| {
+                    (
+                        match q {
+                            IoQuery::MerklePage(p) => Awaiting::Page(p.clone()),
+                            IoQuery::LeafPage(pn) => Awaiting::Leaf((pn.0 - PN_BASE) as usize),
+                        },
+                        w.clone(),
+                    )
+                })
+                .collect();
+            waiters.sort_by(|a, b| match (&a.0, &b.0) {
+                (Awaiting::Page(x), Awaiting::Page(y)) => x.cmp(y),
+                (Awaiting::Page(_), Awaiting::Leaf(_)) => std::cmp::Ordering::Less,
+                (Awaiting::Leaf(_), Awaiting::Page(_)) => std::cmp::Ordering::Greater,
+                (Awaiting::Leaf(x), Awaiting::Leaf(y)) => x.cmp(y),
+            });
+            let requests = s
+                .requests
+                .iter()
+                .enumerate()
+                .map(|(i, request)| {
+                    let idx = s.processed + i;
+                    let awaiting = waiters
+                        .iter()
+                        .find(|(_, w)| w.contains(&idx))
+                        .map(|(q, _)| q.clone());
+                    request_view(request, awaiting)
+                })
+                .collect();
+            let slab = s
+                .io_slab
+                .iter()
+                .map(|(i, r)| {
+                    (
+                        i,
+                        match r {
+                            IoRequest::Merkle(load) => SlabView::Merkle {
+                                page_id: load.page_id().clone(),
+                                bucket: load.verif_bucket(),
+                                submitted: load.needs_completion(),
+                            },
+                            IoRequest::Leaf(load) => {
+                                SlabView::Leaf((load.page_number().0 - PN_BASE) as usize)
+                            }
+                        },
+                    )
+                })
+                .collect();
+            SeekerView {
+                processed: s.processed,
+                requests,
+                waiters,
+                slab,
+                vacant_key: s.io_slab.vacant_key(),
+                idle_requests: s.idle_requests.iter().cloned().collect(),
+                idle_page_loads: s.idle_page_loads.iter().cloned().collect(),
+                in_flight,
+            }
+        }
+
+        pub fn page_set_ids(&self) -> Vec<(PageId, bool)> {
+            let mut v: Vec<(PageId, bool)> = self
+                .page_set
+                .verif_entries()
+                .into_iter()
+                .map(|(id, origin)| (id, matches!(origin, PageOrigin::Reconstructed { .. })))
+                .collect();
+            v.sort();
+            v
+        }
+
+        pub fn page_set_get(&self, page_id: &PageId) -> Option<Vec<u8>> {
+            self.page_set
+                .get(page_id)
+                .map(|(page, _)| page.page_data()[..].to_vec())
+        }
+    }
+
+    fn request_view(request: &SeekRequest, awaiting: Option<Awaiting>) -> RequestView {
+        let state = match &request.state {
+            RequestState::Seeking => StateView::Seeking,
+            RequestState::FetchingLeaf {
+                overlay_deletions, ..
+            } => StateView::FetchingLeaf(overlay_deletions.len()),
+            RequestState::FetchingLeaves {
+                collected_leaf_data,
+                ..
+            } => StateView::FetchingLeaves(collected_leaf_data.len()),
+            RequestState::Completed(t) => {
+                StateView::Completed(t.as_ref().map(|l| (l.key_path, l.value_hash)))
+            }
+        };
+        RequestView {
+            depth: request.position.depth() as usize,
+            raw_path: request.position.raw_path(),
+            node_index: if request.position.is_root() {
+                None
+            } else {
+                Some(request.position.node_index())
+            },
+            page_id: request.page_id.clone(),
+            siblings: request.siblings.clone(),
+            state,
+            ios: request.ios,
+            awaiting,
         }
     }
 
